@@ -294,8 +294,11 @@ def main():
             nprng = np.random.default_rng(a.seed * 1000003 + tid)
             fam = a.family
             reveal_only = fam.startswith("paths")
+            # the kinds of hidden games are stratified over the traces of a player count, so that even two or three traces (large n)
+            # include the negative / mixed-sign games
+            strat = ((i * 5 + 2) % 8 + rng.random()) / 8
             if fam in ("sa", "paths_sa"):
-                kind = rng.random()
+                kind = strat
                 v = D.random_sa_game(n, rng)
                 if kind < 0.25:
                     s = rng.choice([2, 4, 8])
@@ -330,8 +333,45 @@ def main():
                     v = [0.0] + [x - big for x in v[1:]]
                 cls, mode = "SAM", "exact"
                 objs = [{"comp": "sac", "r": 0}] + [{"comp": "sam", "r": r} for r in reps]
+            elif fam == "sam_sensitive":
+                # knowledge sets on which the SECOND sweep of the SAM approximation improves on the first (rare: a few per cent of random
+                # knowledge sets at n = 7) are searched for with the real code (r = 0 against r = 1), so that the clauses "raising the
+                # repetition count never loosens" and "r = 100 / 1000 are at least as tight as r = 1" are evaluated where they can fail
+                # (seed C04-e: an early exit that made the registered sam_apx_100 / 1000 return the r = 0 bounds)
+                found = None
+                for _attempt in range(300):
+                    adds = [[rng.randint(0, 6) for _ in range(n)] for _ in range(rng.randint(2, 4))]
+                    v = [-float(max(sum(a_[i] for i in range(n) if c >> i & 1) for a_ in adds)) for c in range(2 ** n)]
+                    v[0] = 0.0
+                    dens = rng.uniform(0.05, 0.35)
+                    ks = D.minimal(n) + [c for c in D.explorable(n) if rng.random() < dens]
+                    tabs_ = []
+                    for r_ in (0, 1):
+                        g_ = IncompleteCooperativeGame(n, computer_for("sam", r_))
+                        g_.set_known_values([v[c] for c in ks], [Coalition(c) for c in ks])
+                        g_.compute_bounds()
+                        tabs_.append(D.raw_table(g_))
+                    if tabs_[0] != tabs_[1]:
+                        found = ks
+                        break
+                if found is None:
+                    continue
+                cls, mode = "SAM", "exact"
+                objs = [{"comp": "sac", "r": 0}] + [{"comp": "sam", "r": r} for r in reps]
+                unknown_ = [c for c in D.explorable(n) if c not in found]
+                script = [{"op": "reset", "c": 0, "cs": list(found)}, {"op": "compute", "c": 0, "cs": []}]
+                if unknown_:
+                    c_ = rng.choice(unknown_)
+                    script += [{"op": "reveal", "c": c_, "cs": []}, {"op": "compute", "c": 0, "cs": []}, {"op": "unreveal", "c": c_, "cs": []},
+                               {"op": "compute", "c": 0, "cs": []}]
+                gen = run_trace(tid, n, cls, mode, v, objs, rng, 0, bool(a.gaps), (1, 1, 1, 1), False, script=script)
+                for out in gen:
+                    if out is not None:
+                        traces.append(out)
+                total_events += len(traces[-1]["events"])
+                continue
             elif fam == "cached":
-                kind = rng.random()
+                kind = ((i * 2 + 4) % 5 + rng.random()) / 5
                 if kind < 0.4:
                     v, cls = D.random_any_game(n, rng), "ANY"
                 elif kind < 0.8:
@@ -368,7 +408,7 @@ def main():
                 if out is not None:
                     traces.append(out)
             total_events += len(traces[-1]["events"])
-        if a.interleave:
+        if a.interleave or not traces:
             continue
         path = f"{a.out}_{a.family}_n{n}.json"
         D.dump(path, {"traces": traces})
